@@ -37,6 +37,7 @@ ASSUMPTIONS = [
     "model_from_winner and no_stuck_state assume latency=false (a process with a pending default-action SIGTERM performs no further action), which is what Linux does; with latency=true the model has a reachable deadlock and a loser can serve the query (theorems no_stuck_state_latency_refuted, responder_not_winner_under_latency): a consequence of all children sharing ONE control pipe, not reproduced on the implementation",
     "the model is the protocol as repaired by build/fixes/C19_all_fail_raise.diff + C19_silent_death.diff (failure counter and liveness poll in _solve); on a tree without the repair the all-members-fail scenarios hang and are reported",
     "the liveness poll is modelled as one atomic event (queue empty and no member process alive); the implementation evaluates is_alive() BEFORE the timed get(), and a process that is no longer alive has flushed its queue message, so the two observations together imply the atomic condition",
+    "the model has no clock: its `the survivor serves requests until it is told to exit` is compared with the implementation across caller idle gaps of 2, 12 and 35.5 s (quick) and 65.5 and 130.5 s (thorough), between solve and the first query and between two queries; idle gaps above the largest tested one are not exercised",
     "one model run = one _solve round plus the queries of that round; rounds of a repeated solve use fresh channels and are modelled independently (the stale _ext_solver kept across a raising solve is not modelled; get_model after an unsat or raising solve is API misuse and not exercised)",
     "exit_on_exception=True makes the first exception win by design: failures_ignored is stated for exit_on_exception=False, and an error from a member that really raised is accepted when the option is on",
     "command histories are legal (never pop more levels than are open) and use no reset_assertions (Portfolio._reset_assertions is not decorated, unlike the TrackSolver model); solve(assumptions) takes any Boolean formulas: Portfolio._solve conjoins them into the formula of the round WITHOUT opening a level, so for the bookkeeping its model command is SSolve None (TrackSolver's `SSolve (Some f)` is the native wrappers' push-assert-pending_pop scheme, which Portfolio does not use); the round itself is judged on assertions + assumptions",
@@ -56,6 +57,8 @@ RULE = ("scenarios: every assignment of {answer, raise|unknown, silent exit} to 
         "for Portfolio(solvers_set=...) with 2 and 3 members and with a failing member (22 quick / 24 thorough) + the empty solvers_set (2); "
         "8 forms x 2 member counts = 16 histories that pass the same content, and the empty container, to solve(assumptions=), "
         "add_assertions() and get_values(); random histories draw a random form for each such call); "
+        "idle-gap scenarios (tag idle: per gap one scenario with the gap after solve and one with the gap between get_model and get_value, "
+        "2-3 members, started first and collected last: 6 quick / 10 thorough); "
         "distinct = distinct (round configuration, observed outcome)")
 
 WATCHDOG = float(os.environ.get("VERIF_C19_WATCHDOG", "12"))
@@ -388,7 +391,9 @@ def worker(sc):
     for k, op in enumerate(sc["ops"]):
         _emit({"begin": k, "op": op[0]})
         kind = op[0]
-        if kind in ("get_model", "get_value", "get_values") and not last_sat:
+        if kind == "sleep":
+            pass
+        elif kind in ("get_model", "get_value", "get_values") and not last_sat:
             _emit({"end": k, "skipped": True})   # a query after a failed / unsat solve is API misuse
             continue
         try:
@@ -403,6 +408,9 @@ def worker(sc):
             elif kind == "pop":
                 p.pop(*op[1:2])
                 emit_end({"end": k})
+            elif kind == "sleep":             # the CALLER is idle: nothing is sent to the members
+                time.sleep(op[1])
+                _emit({"end": k})
             elif kind == "add_many":
                 fs = [to_pysmt(a) for a in op[1]]
                 idxs = [fidx(f) for f in fs]
@@ -515,7 +523,7 @@ def worker(sc):
 def run_scenario(sc, timeout=None):
     """Runs one scenario in its own process group under the watchdog.
     Returns (events, hung: bool)."""
-    timeout = timeout or WATCHDOG
+    timeout = timeout or (WATCHDOG + sc.get("sleep_total", 0))
     env = dict(os.environ)
     env["PYTHONPATH"] = "%s:%s" % (lib.REPO, lib.VERIF)
     env["PYTHONHASHSEED"] = "0"
@@ -615,6 +623,13 @@ def analyse(sc, evs, hung, rc):
             flush_round(final_ok=False)
             break
         e = ends.get(k)
+        if kind == "sleep":
+            if e is None:
+                problems.append(("worker-stopped", "the scenario was cut during an idle gap of %s s" % op[1]))
+                flush_round(final_ok=False)
+                break
+            k += 1
+            continue
         if kind in ("add", "add_many", "push", "pop", "assertions") and e is not None and "exc" in e:
             problems.append(("command-exception", "%s raised %s" % (kind, e["exc"])))
             flush_round(final_ok=False)
@@ -796,6 +811,10 @@ def analyse(sc, evs, hung, rc):
                 problems.append(("leak", "member processes still alive 1.5 s after exit(): %s" % e["leaked"]))
     if not hung and rc not in (0, None) and not any(p[0] for p in problems):
         problems.append(("worker-crashed", "scenario worker exited with status %s" % rc))
+    gaps = [(k, op[1]) for k, op in enumerate(ops) if op[0] == "sleep"]
+    if gaps and problems:
+        note = "; ".join("caller idle %s s before %s" % (g, ops[k + 1][0] if k + 1 < len(ops) else "exit") for k, g in gaps)
+        problems = [(key, "%s [%s]" % (what, note)) for key, what in problems]
     return rounds, problems
 
 
@@ -1059,6 +1078,32 @@ TIMINGS = {
 FAIL_MODES = ["raise", "unknown", "exit", "sysexit", "ctor_raise", "assert_raise"]
 
 
+IDLE_GAPS = {"quick": [2, 12, 35.5], "thorough": [2, 12, 35.5, 65.5, 130.5]}
+
+
+def idle_scenarios(tier):
+    """The caller's wall-clock idle time as a hidden input: solve -> SAT, then nothing for `gap`
+    seconds, then the queries; and a gap BETWEEN two queries.  Started before everything else
+    and collected at the end, so they cost no wall time beyond the largest gap."""
+    p, q = V("p"), V("q")
+    lt = ["bvult", ["bvvar", "x"], ["bvvar", "y"]]
+    f = ["and", ["or", p, q], lt]
+    vals = [["get_value", "p", False], ["get_value", "q", False], ["get_value", "x", True], ["get_value", "y", True]]
+    out = []
+    for i, gap in enumerate(IDLE_GAPS[tier]):
+        n = 2 + i % 2
+        members = [{"mode": "answer", "delay_ms": d} for d in [0, 5, 10][:n]]
+        # gap between solve and the first query, then a fresh cycle and the exit
+        ops = ([["add", f], ["solve"], ["sleep", gap], ["get_model"]] + vals +
+               [["push", 1], ["add", ["not", p]], ["solve"], ["get_model"], ["pop", 1], ["solve_assuming", [["not", q]], "list"],
+                ["get_values", [["p", False], ["q", False]], "list"], ["assertions"]])
+        out.append({"members": members, "eoe": False, "ops": ops, "tag": "idle", "raw": True, "sleep_total": gap})
+        # gap between get_model and get_value, and before exit
+        ops = [["add", f], ["solve"], ["get_model"], ["sleep", gap]] + vals + [["get_model"], ["assertions"]]
+        out.append({"members": list(reversed(members)), "eoe": False, "ops": ops, "tag": "idle", "raw": True, "sleep_total": gap})
+    return out
+
+
 def scenarios(rnd, tier):
     out = []
 
@@ -1247,11 +1292,11 @@ def history_case(sc, evs):
     return "(%s, %s, %s)" % (lib.coq_list(negs), lib.coq_list(cs), lib.coq_list(tr))
 
 
-def write_history_files(chk, rows, shard=100):
+def write_history_files(chk, rows, prefix="", shard=100):
     files, meta = [], {}
     for k in range(0, len(rows), shard):
         body = HIST_HDR + "Definition cases : list (list (nat * nat) * list (scmd nat) * list (option (result (tst nat)))) := [\n %s ].\n" % ";\n ".join(r for r, _ in rows[k:k + shard]) + HIST_TAIL
-        p = os.path.join(chk.dir, "cases_hist_%d.v" % (k // shard))
+        p = os.path.join(chk.dir, "cases_hist_%s%d.v" % (prefix, k // shard))
         with open(p, "w") as f:
             f.write(body)
         files.append(p)
@@ -1265,9 +1310,10 @@ def cfg_lit(cfg):
     return "(mkCfg %s %s %s %s)" % (lib.coq_list(list(behs)), lib.coq_bool(eoe), lib.coq_bool(lat), lib.coq_list(list(script)))
 
 
-def write_case_files(chk, groups):
+def write_case_files(chk, groups, prefix="", clean=True):
     """groups: list of (cfg, [observed...]).  Larger configurations are spread evenly."""
-    lib.clean_cases(chk.dir)
+    if clean:
+        lib.clean_cases(chk.dir)
     order = sorted(range(len(groups)), key=lambda i: -(len(groups[i][0][0]) * 10 + len(groups[i][0][2])))
     nfiles = max(1, min(lib.NPROC, (len(groups) + 5) // 6))
     shards = [[] for _ in range(nfiles)]
@@ -1281,7 +1327,7 @@ def write_case_files(chk, groups):
         body = HDR + "Definition cases : list (config * list outcome) := [\n %s ].\n" % ";\n ".join(rows)
         body += ("Definition ok (x : config * list outcome) : bool := explains_all (fst x) (snd x).\n"
                  "Eval vm_compute in mismatches ok cases.\n")
-        p = os.path.join(chk.dir, "cases_%d.v" % k)
+        p = os.path.join(chk.dir, "cases_%s%d.v" % (prefix, k))
         with open(p, "w") as f:
             f.write(body)
         files.append(p)
@@ -1338,82 +1384,99 @@ def run(tier):
     chk = lib.Check("C19", tier)
     chk.level = "partial"
     rnd = random.Random(chk.seed)
-    ok = chk.prove()
-    scs = scenarios(rnd, tier)
-    chk.note("running %d scenarios on the implementation (watchdog %.0fs)" % (len(scs), WATCHDOG))
-    jobs = max(4, min(lib.NPROC, 12))
-    results = run_all(scs, jobs)
-    groups = {}
-    group_src = {}
-    nviol = 0
-    hangs = 0
-    leaks = []
-    tags = {}
-    hist_rows = []
-    for sc, (evs, hung, rc) in zip(scs, results):
-        rounds, problems = analyse(sc, evs, hung, rc)
-        if sc.get("raw"):
-            row = history_case(sc, evs)
-            if row is not None:
-                hist_rows.append((row, sc))
-        hangs += 1 if hung else 0
-        tags[sc["tag"].split(":")[0]] = tags.get(sc["tag"].split(":")[0], 0) + 1
-        nviol += report_problems(chk, sc, evs, hung, problems, rounds)
-        for key, what in problems:
-            if key in CORR_ONLY:
-                leaks.append({"scenario": strip(sc), "what": what})
-        for r in rounds:
-            cfg = (tuple(r["behs"]), r["eoe"], tuple(r["script"]), r["latency"])
-            if r["observed"] is None:
-                continue
-            if r["latency"] and len(r["script"]) > 5:
-                continue      # responder histories make the latency=true state space exponential in the script
-            chk.count((cfg, r["observed"]), nontrivial=True)
-            groups.setdefault(cfg, [])
-            if r["observed"] not in groups[cfg]:
-                groups[cfg].append(r["observed"])
-            group_src.setdefault((cfg, r["observed"]), sc)
-    glist = sorted(groups.items(), key=lambda kv: str(kv[0]))
-    if glist:
-        chk.sample({"kind": "round", "config": cfg_lit(glist[0][0]), "observed": glist[0][1]})
-        chk.sample({"kind": "round", "config": cfg_lit(glist[-1][0]), "observed": glist[-1][1]})
-    corr_bad = []
-    if os.path.exists(os.path.join(lib.COQ, "models", "Portfolio.vo")):
-        files, meta = write_case_files(chk, glist)
-        res = lib.run_case_files(files)
-        for p, (rc, out) in res.items():
-            mm = lib.parse_nat_list(out) if rc == 0 else None
-            if mm is None:
-                corr_bad.append({"file": p, "error": out[-500:]})
-                continue
-            for i in mm:
-                cfg, obs = glist[meta[p][i]]
-                src = [group_src[(cfg, o)] for o in obs]
-                corr_bad.append({"config": cfg_lit(cfg), "observed": obs, "model_outcomes": model_outcomes(chk, cfg),
-                                 "scenarios": [strip(s) for s in src[:2]]})
-    else:
-        corr_bad.append({"error": "models/Portfolio.v does not compile"})
-    # command histories against the bookkeeping model shared with C16 (models/TrackSolver.v)
-    if os.path.exists(os.path.join(lib.COQ, "models", "TrackSolver.vo")):
-        hfiles, hmeta = write_history_files(chk, hist_rows)
-        for p, (rc, out) in lib.run_case_files(hfiles).items():
-            mm = lib.parse_nat_list(out) if rc == 0 else None
-            if mm is None:
-                corr_bad.append({"file": p, "error": out[-500:]})
-                continue
-            for i in mm[:3]:
-                corr_bad.append({"history": strip(hmeta[p][i]), "what": "bookkeeping state (_assertion_stack, _backtrack_points, pending_pop) after some command differs from models/TrackSolver.v"})
-    else:
-        corr_bad.append({"error": "models/TrackSolver.v does not compile"})
-    chk.cov["histories"] = {"run": sum(1 for s in scs if s.get("raw")), "compared_with_TrackSolver_model": len(hist_rows)}
+    # idle-gap scenarios first: they sleep while the rest of the check runs
+    from concurrent.futures import ThreadPoolExecutor
+    idle = idle_scenarios(tier)
+    idle_pool = ThreadPoolExecutor(max_workers=len(idle))
+    idle_futs = [idle_pool.submit(run_scenario, sc) for sc in idle]
+    st = {"hangs": 0, "leaks": [], "tags": {}, "corr_bad": [], "nhist": 0, "nraw": 0, "configs": 0, "several": 0, "nsc": 0}
+
+    def phase(scs, results, prefix, clean):
+        """Property oracle on every scenario, then the two Coq correspondences for its rounds."""
+        groups, group_src, hist_rows = {}, {}, []
+        for sc, (evs, hung, rc) in zip(scs, results):
+            rounds, problems = analyse(sc, evs, hung, rc)
+            if sc.get("raw"):
+                st["nraw"] += 1
+                row = history_case(sc, evs)
+                if row is not None:
+                    hist_rows.append((row, sc))
+            st["hangs"] += 1 if hung else 0
+            st["tags"][sc["tag"].split(":")[0]] = st["tags"].get(sc["tag"].split(":")[0], 0) + 1
+            report_problems(chk, sc, evs, hung, problems, rounds)
+            for key, what in problems:
+                if key in CORR_ONLY:
+                    st["leaks"].append({"scenario": strip(sc), "what": what})
+            for r in rounds:
+                cfg = (tuple(r["behs"]), r["eoe"], tuple(r["script"]), r["latency"])
+                if r["observed"] is None:
+                    continue
+                if r["latency"] and len(r["script"]) > 5:
+                    continue      # responder histories make the latency=true state space exponential in the script
+                chk.count((cfg, r["observed"]), nontrivial=True)
+                groups.setdefault(cfg, [])
+                if r["observed"] not in groups[cfg]:
+                    groups[cfg].append(r["observed"])
+                group_src.setdefault((cfg, r["observed"]), sc)
+        glist = sorted(groups.items(), key=lambda kv: str(kv[0]))
+        if glist:
+            chk.sample({"kind": "round", "config": cfg_lit(glist[0][0]), "observed": glist[0][1]})
+            chk.sample({"kind": "round", "config": cfg_lit(glist[-1][0]), "observed": glist[-1][1]})
+        corr_bad = st["corr_bad"]
+        if os.path.exists(os.path.join(lib.COQ, "models", "Portfolio.vo")):
+            files, meta = write_case_files(chk, glist, prefix, clean)
+            res = lib.run_case_files(files)
+            for p, (rc, out) in res.items():
+                mm = lib.parse_nat_list(out) if rc == 0 else None
+                if mm is None:
+                    corr_bad.append({"file": p, "error": out[-500:]})
+                    continue
+                for i in mm:
+                    cfg, obs = glist[meta[p][i]]
+                    src = [group_src[(cfg, o)] for o in obs]
+                    corr_bad.append({"config": cfg_lit(cfg), "observed": obs, "model_outcomes": model_outcomes(chk, cfg),
+                                     "scenarios": [strip(s) for s in src[:2]]})
+        else:
+            corr_bad.append({"error": "models/Portfolio.v does not compile"})
+        # command histories against the bookkeeping model shared with C16 (models/TrackSolver.v)
+        if os.path.exists(os.path.join(lib.COQ, "models", "TrackSolver.vo")):
+            hfiles, hmeta = write_history_files(chk, hist_rows, prefix)
+            for p, (rc, out) in lib.run_case_files(hfiles).items():
+                mm = lib.parse_nat_list(out) if rc == 0 else None
+                if mm is None:
+                    corr_bad.append({"file": p, "error": out[-500:]})
+                    continue
+                for i in mm[:3]:
+                    corr_bad.append({"history": strip(hmeta[p][i]), "what": "bookkeeping state (_assertion_stack, _backtrack_points, pending_pop) after some command differs from models/TrackSolver.v"})
+        else:
+            corr_bad.append({"error": "models/TrackSolver.v does not compile"})
+        st["nhist"] += len(hist_rows)
+        st["configs"] += len(glist)
+        st["several"] += sum(1 for _, o in glist if len(o) > 1)
+        st["nsc"] += len(scs)
+
+    try:
+        ok = chk.prove()
+        scs = scenarios(rnd, tier)
+        chk.note("running %d scenarios on the implementation (watchdog %.0fs) + %d idle-gap scenarios in the background (gaps %s s)"
+                 % (len(scs), WATCHDOG, len(idle), IDLE_GAPS[tier]))
+        jobs = max(4, min(lib.NPROC, 12))
+        results = run_all(scs, jobs)
+        phase(scs, results, "", True)
+    finally:
+        idle_results = [f.result() for f in idle_futs]     # each ends by itself or by its watchdog
+        idle_pool.shutdown()
+    phase(idle, idle_results, "idle_", False)
+    corr_bad, leaks = st["corr_bad"], st["leaks"]
+    chk.cov["histories"] = {"run": st["nraw"], "compared_with_TrackSolver_model": st["nhist"]}
     for l in leaks[:3]:
         corr_bad.append({"leak": l})
-    chk.cov["correspondence"] = {"scenarios": len(scs), "by_kind": tags, "rounds": chk.cov["evaluations"],
-                                 "distinct_round_configurations": len(glist), "watchdog_fired": hangs,
-                                 "configurations_with_several_observed_outcomes": sum(1 for _, o in glist if len(o) > 1),
+    chk.cov["correspondence"] = {"scenarios": st["nsc"], "by_kind": st["tags"], "rounds": chk.cov["evaluations"],
+                                 "distinct_round_configurations": st["configs"], "watchdog_fired": st["hangs"],
+                                 "configurations_with_several_observed_outcomes": st["several"],
                                  "leaks": len(leaks), "disagreements": len(corr_bad)}
     chk.note("scenarios %d, rounds %d, configurations %d, watchdog fired %d, correspondence disagreements %d"
-             % (len(scs), chk.cov["evaluations"], len(glist), hangs, len(corr_bad)))
+             % (st["nsc"], chk.cov["evaluations"], st["configs"], st["hangs"], len(corr_bad)))
 
     if (not ok or corr_bad) and not chk.violations:
         # SEARCH: look harder for an input on which the property itself fails
